@@ -56,6 +56,30 @@ theorem pEvs_mapq (l : List Ev) : pEvs (l.map HOut.q) = [] := by
   | nil => rfl
   | cons x t ih => simp [pEvs, ih]
 
+theorem qEnds_append (a b : List HOut) : qEnds (a ++ b) = qEnds a + qEnds b := by
+  induction a with
+  | nil => simp [qEnds]
+  | cons x t ih => cases x <;> simp [qEnds, ih] <;> omega
+
+theorem qEnds_mapq (l : List Ev) : qEnds (l.map HOut.q) = 0 := by
+  induction l with
+  | nil => rfl
+  | cons x t ih => simp [qEnds, ih]
+
+theorem qEnds_mapp (l : List Ev) : qEnds (l.map HOut.p) = 0 := by
+  induction l with
+  | nil => rfl
+  | cons x t ih => simp [qEnds, ih]
+
+/-- the code adds one `RequestBodyEnd` per request-ending operation — it does not look whether the
+request had ended before -/
+theorem hrun_qEnds (cq cp : Cfg) : ∀ (ops : List HOp) (h : HSt),
+    qEnds (hrun cq cp h ops).2 = (ops.filter isReqEndOp).length
+  | [], _ => by simp [hrun, qEnds]
+  | o :: os, h => by
+    cases o <;>
+      simp [hrun, hstep, qEnds_append, qEnds_mapq, qEnds_mapp, qEnds, isReqEndOp, hrun_qEnds cq cp os, List.filter_cons]
+
 /-- the request-side events of a stream are those of its request tracer alone -/
 theorem hrun_req (cq cp : Cfg) : ∀ (ops : List HOp) (h : HSt),
     qEvs (hrun cq cp h ops).2 = (brun cq h.req (reqProj ops)).2 ∧ (hrun cq cp h ops).1.req = (brun cq h.req (reqProj ops)).1
